@@ -17,8 +17,6 @@ import (
 // table (RFC 7541 §4) driven by an independent parse of the encoder's output equals the
 // decoder's table, and the encoder's table is the newest part of it.
 
-const c01KnownKey = "c01-two-size-updates-rejected"
-
 func c01Gen(t *rapid.T) c01Case { return c01GenCase(t, false) }
 
 func c01Known(c c01Case) (key string) {
@@ -79,6 +77,37 @@ func c01Prop(c c01Case, r *vp.Rec) error {
 		}
 		if len(blk.Fields) == 0 {
 			classes["empty-block"] = true
+		}
+
+		// decode
+		got = got[:0]
+		feed := [][]byte{wire}
+		if c.PerField {
+			feed = chunks
+			classes["fed-per-field"] = true
+		}
+		for _, p := range feed {
+			n, err := dec.Write(p)
+			if err != nil {
+				return fmt.Errorf("block %d: Decoder.Write(%x) = %v (block %x, %d fields; decoder table at the error: %d entries, size %d, max %d, allowed %d)",
+					bi, p, err, wire, len(want), dec.dynTab.table.len(), dec.dynTab.size, dec.dynTab.maxSize, dec.dynTab.allowedMaxSize)
+			}
+			if n != len(p) {
+				return fmt.Errorf("block %d: Decoder.Write consumed %d of %d bytes", bi, n, len(p))
+			}
+		}
+		if err := dec.Close(); err != nil {
+			return fmt.Errorf("block %d: Decoder.Close() = %v after a complete block %x", bi, err, wire)
+		}
+		if len(got) != len(want) {
+			return fmt.Errorf("block %d: decoder emitted %d fields, %d written (emitted %v)", bi, len(got), len(want), got)
+		}
+		for i := range want {
+			if got[i] != want[i] {
+				return fmt.Errorf("block %d field %d: decoder emitted {%s %s sensitive=%v}, written {%s %s sensitive=%v}", bi, i,
+					c01Short(got[i].Name), c01Short(got[i].Value), got[i].Sensitive,
+					c01Short(want[i].Name), c01Short(want[i].Value), want[i].Sensitive)
+			}
 		}
 
 		// reference: parse the wire, maintain the RFC table
@@ -150,37 +179,6 @@ func c01Prop(c c01Case, r *vp.Rec) error {
 			classes["size-update-single"] = true
 		case nupd >= 2:
 			classes["size-update-double(min,final)"] = true
-		}
-
-		// decode
-		got = got[:0]
-		feed := [][]byte{wire}
-		if c.PerField {
-			feed = chunks
-			classes["fed-per-field"] = true
-		}
-		for _, p := range feed {
-			n, err := dec.Write(p)
-			if err != nil {
-				return fmt.Errorf("block %d: Decoder.Write(%x) = %v (block %x; %d size updates then %d fields; decoder table before the error had %d entries, size %d, max %d, allowed %d)",
-					bi, p, err, wire, nupd, len(want), dec.dynTab.table.len(), dec.dynTab.size, dec.dynTab.maxSize, dec.dynTab.allowedMaxSize)
-			}
-			if n != len(p) {
-				return fmt.Errorf("block %d: Decoder.Write consumed %d of %d bytes", bi, n, len(p))
-			}
-		}
-		if err := dec.Close(); err != nil {
-			return fmt.Errorf("block %d: Decoder.Close() = %v after a complete block %x", bi, err, wire)
-		}
-		if len(got) != len(want) {
-			return fmt.Errorf("block %d: decoder emitted %d fields, %d written (emitted %v)", bi, len(got), len(want), got)
-		}
-		for i := range want {
-			if got[i] != want[i] {
-				return fmt.Errorf("block %d field %d: decoder emitted {%s %s sensitive=%v}, written {%s %s sensitive=%v}", bi, i,
-					c01Short(got[i].Name), c01Short(got[i].Value), got[i].Sensitive,
-					c01Short(want[i].Name), c01Short(want[i].Value), want[i].Sensitive)
-			}
 		}
 
 		// tables (white box)
